@@ -745,6 +745,53 @@ theorem enableEvF_inv (s : State) (e : Nat) (h : Inv s) : Inv (enableEvF s e).1 
     ⟨rfl, rfl, rfl, rfl, rfl, rfl, rfl⟩
   exact inv_sameCore (enableEv_inv _ e (inv_sameCore h c1)) c2
 
+theorem destroyEv_dead (s : State) (e : Nat) (ha : (s.evs e).alive = true) : ((destroyEv s e).1.evs e).alive = false := by
+  unfold destroyEv
+  simp only [ha, Bool.not_true, Bool.false_eq_true, ↓reduceIte]
+  simp [State.setEv]
+
+theorem destroyEv_nEv (s : State) (e : Nat) (h : Inv s) : (destroyEv s e).1.nEv = s.nEv := by
+  unfold destroyEv
+  dsimp only
+  split; · rfl
+  obtain ⟨hn, _, _, _⟩ := disableEv_frame s e h
+  split <;> simp [hn]
+
+/-- **an event object reborn at the same address keeps the invariant**: the new object holds nothing and subscribes nowhere -/
+theorem rebornEv_inv (s : State) (e : Nat) (h : Inv s) : Inv (rebornEv s e).1 := by
+  unfold rebornEv
+  by_cases ha : (s.evs e).alive = true
+  · simp only [ha, Bool.not_true, Bool.false_eq_true, ↓reduceIte]
+    have h2 := destroyEv_inv s e h
+    have hd := destroyEv_dead s e ha
+    have hn := destroyEv_nEv s e h
+    have hlt : e < s.nEv := by
+      by_cases hl : e < s.nEv
+      · exact hl
+      · have := h.fresh e (by omega); simp [ha] at this
+    generalize (destroyEv s e).1 = s2 at h2 hd hn ⊢
+    have hi : (s2.evs e).inited = false := by
+      cases hq : (s2.evs e).inited with
+      | false => rfl
+      | true => have := (h2.evs e).2 hq; simp [hd] at this
+    have he : (s2.evs e).enabled = false := by
+      cases hq : (s2.evs e).enabled with
+      | false => rfl
+      | true => have := (h2.evs e).1 hq; simp [hi] at this
+    exact setEv_inv s2 e _ s2.nEv h2 he he (fun g => by simp [Holds, hi]) (by simp) (Nat.le_refl _) (fun _ => by omega)
+  · have ha' : (s.evs e).alive = false := by simpa using ha
+    simp only [ha', Bool.not_false, ↓reduceIte]
+    exact h
+
+theorem markFault_core (s : State) : SameCore s (markFault s) := ⟨rfl, rfl, rfl, rfl, rfl, rfl, rfl⟩
+
+/-- **refused MOD / DEL keep the invariant** (of the loop's own state; `kern` is the believed table then) -/
+theorem ctlLEv_inv (s : State) (en : Bool) (e : Nat) (h : Inv s) : Inv (ctlLEv s en e).1 := by
+  unfold ctlLEv
+  cases en
+  · exact inv_sameCore (disableEv_inv s e h) (markFault_core _)
+  · exact inv_sameCore (enableEv_inv s e h) (markFault_core _)
+
 theorem act_inv (s : State) (a : Act) (h : Inv s) : Inv (act s a).1 := by
   cases a with
   | init e f m o => exact initEv_inv s e f m o h
@@ -760,6 +807,8 @@ theorem act_inv (s : State) (a : Act) (h : Inv s) : Inv (act s a).1 := by
   | post k => exact h
   | cond f c => exact condFd_inv s f c h
   | enableF e => exact enableEvF_inv s e h
+  | reborn e => exact rebornEv_inv s e h
+  | ctlL en e => exact ctlLEv_inv s en e h
 
 theorem runScript_inv (sc : List Act) : ∀ (s : State), Inv s → Inv (runScript s sc) := by
   induction sc with
@@ -940,6 +989,17 @@ theorem act_prov (s : State) (a : Act) : Prov s (act s a).1 := by
   | post k => exact Prov.refl s
   | cond f c => exact prov_sameCore (condFd_core s f c)
   | enableF e => exact enableEvF_prov s e
+  | ctlL en e =>
+    show Prov s (ctlLEv s en e).1
+    unfold ctlLEv
+    cases en
+    · exact (disableEv_prov s e).trans (prov_sameCore (markFault_core _))
+    · exact (enableEv_prov s e).trans (prov_sameCore (markFault_core _))
+  | reborn e =>
+    show Prov s (rebornEv s e).1
+    unfold rebornEv; split
+    · exact Prov.refl s
+    · exact (destroyEv_prov s e).trans (setEv_prov _ _ _)
 
 theorem runScript_prov (sc : List Act) : ∀ s : State, Prov s (runScript s sc) := by
   induction sc with
@@ -1111,6 +1171,7 @@ theorem step_inv (s : State) (st : Step) (h : Inv s) : Inv (step s st) := by
   | pass be r => exact pass_inv s r h
   | badfPass fds => exact removeInvalid_inv fds s h
   | loop be tms r nx => exact loopPass_inv s tms r nx h
+  | loopLag tms r nx => exact loopPass_inv s tms r nx h
   | loopBadf trig tms fds nx => exact loopBadf_inv s tms fds nx h
   | defer nx => exact runScripts_inv nx s h
 
